@@ -46,6 +46,9 @@ def concrete(inp):
     names = [inp["mixture"]] if inp.get("mixture") else ["H2O_EtOH", "MeOH_MTBE"]
     for name in names:
         mix = getattr(Mixtures, name)
+        if inp.get("g12") is not None:
+            from .C04 import _fmix
+            mix = _fmix(dict(inp, mixture=name))
         sw = swapped_mixture(mix)
         what = inp.get("what", "all")
         for model in ([inp["model"]] if inp.get("model") else ["NRTL", "UNIQUAC"]):
@@ -103,6 +106,12 @@ def activity(job, model, variant):
     dom = build.domain_T(T) + build.domain_open01(x) + extra
     inputs = {"what": "activity", "model": model, "T": T.t, "x": x.t, "mixture": variant if model == "UNIQUAC" else None}
     fb = [{"what": "activity", "model": model, "T": 333.15, "x": 0.3, "mixture": variant if model == "UNIQUAC" else "H2O_EtOH"}]
+    if model == "NRTL":
+        n = mix.nrtl_params
+        inputs.update({"mixture": "H2O_EtOH", "g12": n.g12.t, "g21": n.g21.t, "al12": n.alpha12.t, "al21": n.alpha21.t if n.alpha21 is not None else None,
+                       "a12": n.a12.t, "a21": n.a21.t})
+        fb += [{"what": "activity", "model": "NRTL", "T": 323.15, "x": 0.4, "mixture": "H2O_MeOH"},
+               {"what": "activity", "model": "NRTL", "T": 300.0, "x": 0.7, "mixture": "H2O_EtOH", "g12": 3000.0, "g21": -800.0, "al12": 0.2, "al21": 0.45, "a12": 0.4, "a21": -0.3}]
     tag = "C06/activity/%s/%s" % (model, variant)
     got = 0
     for leaf in job.explore(lambda: (mixmod.calculate_activity_coefficients(T, mix, build.comp(x, "molar"), model),
